@@ -156,7 +156,9 @@ static inline Song gen_song(Rng &r, const SongOpts &o)
                 int cc = r.pick(ccs);
                 if(o.allow_cc_special && r.chance(0.1)) cc = r.chance(0.5) ? 0 : 32;
                 if(o.game_ccs && r.chance(0.25)) cc = r.chance(0.5) ? 113 : r.range(112, 119);
-                e = mk_chan(tick, 0xB0 | ch, cc, r.range(0, 127));
+                int val = r.range(0, 127);
+                if(cc == 0 && r.chance(0.35)) val = 126 + (int)r.below(2);      // XG: bank MSB 126/127 turns the channel into a percussion channel
+                e = mk_chan(tick, 0xB0 | ch, cc, val);
             }
             else if(kind < 66) e = mk_chan(tick, 0xC0 | ch, r.range(0, 127));
             else if(kind < 74) e = mk_chan(tick, 0xE0 | ch, r.range(0, 127), r.range(0, 127));
